@@ -26,3 +26,14 @@ package provenance
 //@ func NewFromKeyring
 //@   props C17
 //@   ensures [ring-of-the-given-file] err == nil ==> result != nil && box(result.KeyRing) == ringOfFile(keyringfile)
+
+// ---- C17: the digest that is compared and signed is the SHA-256 of what is in the file now
+
+//@ func Digest
+//@   props C17
+//@   requires in != nil
+//@   ensures [digest-of-the-stream] result1 == nil ==> result0 == hexOf(shaOf(rdContent(in)))
+
+//@ func DigestFile
+//@   props C17
+//@   ensures [digest-of-the-file-content] result1 == nil ==> result0 == fileDigest(filename)
